@@ -20,9 +20,9 @@ structure St where
 
 /-! ### the arithmetic shared with the concurrent model -/
 
-/-- `int num_free = (signed char) atomic_fetch_sub(..)` … `if (num_free <= 0)` fails.  `signedRead = false`
-    is the arithmetic before fix d97db7e (`int num_free = atomic_fetch_sub(..)` on an `atomic_uchar`:
-    the value read is 0…255). -/
+/-- HISTORICAL (claims before fix 6099fe4): `int num_free = (signed char) atomic_fetch_sub(..)` … `if (num_free <= 0)`
+    fails.  `signedRead = false` is the arithmetic before fix d97db7e (`int num_free = atomic_fetch_sub(..)` on an
+    `atomic_uchar`: the value read is 0…255).  Used only by the old-variant witnesses. -/
 def granted (signedRead : Bool) (old : BitVec 8) : Bool :=
   if signedRead then decide (0 < old.toInt) else decide (0 < old.toNat)
 
@@ -62,17 +62,22 @@ def staticInit (base baseLen msgLen : Nat) : Option St :=
   else some ⟨base, BitVec.ofNat 16 msgLen, BitVec.ofNat 8 (baseLen / msgLen),
              BitVec.ofNat 8 (baseLen / msgLen), BitVec.ofNat 8 0, BitVec.ofNat 32 0, BitVec.ofNat 8 0⟩
 
-/-- `messageq_claim`; `signedRead = true` is the current code -/
-def claimWith (signedRead : Bool) (s : St) : St × Option Nat :=
-  let old := s.numFree                                      -- fetch_sub returns the old value
-  let s1 := { s with numFree := s.numFree - 1 }
-  if granted signedRead old then
-    -- load sendp; CAS loop (sequentially the first CAS succeeds)
-    ({ s1 with sendp := nextSend s.qlen s.sendp }, some (offsetOfSlot s.msgLen s.sendp))
-  else
-    ({ s1 with numFree := s1.numFree + 1 }, none)          -- fetch_add, return NULL
+/-- `messageq_claim` (current code, since fix 6099fe4): `num_free = atomic_load(..); do { if (0 == num_free) return NULL; }
+    while (!compare_exchange(&num_free, &num_free, num_free - 1));` — sequentially the first compare-exchange succeeds;
+    then load `sendp` and advance it with the second compare-exchange loop -/
+def claim (s : St) : St × Option Nat :=
+  if s.numFree = 0 then (s, none)                          -- return NULL, nothing was written
+  else ({ s with numFree := s.numFree - 1, sendp := nextSend s.qlen s.sendp }, some (offsetOfSlot s.msgLen s.sendp))
 
-def claim (s : St) : St × Option Nat := claimWith true s
+/-- HISTORICAL (`messageq_claim` before fix 6099fe4): optimistic `fetch_sub`, undone by `fetch_add` on failure.
+    `signedRead = true`: `int num_free = (signed char) atomic_fetch_sub(..)` (d97db7e … 6099fe4);
+    `signedRead = false`: `int num_free = atomic_fetch_sub(..)` on the `atomic_uchar` (before d97db7e).
+    Kept only for the witnesses that document why the two fixes were needed; no current theorem depends on it. -/
+def claimFetchSub (signedRead : Bool) (s : St) : St × Option Nat :=
+  if granted signedRead s.numFree then
+    ({ s with numFree := s.numFree - 1, sendp := nextSend s.qlen s.sendp }, some (offsetOfSlot s.msgLen s.sendp))
+  else
+    ({ s with numFree := s.numFree - 1 + 1 }, none)          -- fetch_add, return NULL
 
 /-- `messageq_send(mq, msg)`, `msg = basep + off`; undefined for `msg_len = 0` or a slot ≥ 32 -/
 def send (s : St) (off : Nat) : Option St :=
